@@ -7,6 +7,8 @@ use crate::engine::{Args, Ctx, ReplayDoc};
 pub mod c13;
 pub mod c13b;
 pub mod c14;
+pub mod c18;
+pub mod c18b;
 pub mod c19;
 pub mod c20;
 pub mod c06;
@@ -31,6 +33,7 @@ pub fn run(args: &Args) -> ! {
         "C14" => c14::run(args),
         "C06" => c06::run(args),
         "C12" => c12::run(args),
+        "C18" => c18::run(args),
         p => {
             eprintln!("INFRA: unknown property '{}'", p);
             std::process::exit(2)
@@ -63,6 +66,7 @@ pub fn replay_one(ctx: &Ctx, doc: &ReplayDoc) {
         "C14" => c14::replay_one(ctx, doc),
         "C06" => c06::replay_one(ctx, doc),
         "C12" => c12::replay_one(ctx, doc),
+        "C18" => c18::replay_one(ctx, doc),
         p => ctx.infra_error(format!("unknown property '{}' in replay file", p)),
     }
 }
